@@ -586,6 +586,8 @@ func ParseArrayExpr(p *ParserZH) syntax.UnionMapList {
 	if isArrayType {
 		// parse array like 【1，2，3，4，5】
 		for {
+			// the items of a list may also be separated by 、 (as the grammar writes it)
+			p.tryConsume(TypePauseCommaSep)
 			// if not, parse next expr
 			expr := ParseExpressionMAP(p)
 			ar.Items = append(ar.Items, expr)
